@@ -329,10 +329,15 @@ def r3(ctx, fn, lp):
     ret = fpaths[0].val if fpaths[0].exit is None else fpaths[0].exit[1]
     comps = ret[1] if isinstance(ret, tuple) and ret and ret[0] == "tup" else ()
     names = [e5.root_name(_base_of(x)) for x in comps]
-    okr = len(comps) >= 5 and names[3] is not None and names[4] is not None and names[0] == names[3] and names[1] == names[4]
+    okr = len(comps) >= 5 and names[3] is not None and names[4] is not None and names[0] == names[3]
     first = comps[0] if comps else None
     okr = okr and isinstance(first, tuple) and first[0] == "idx" and first[2] == ("lit", "0")
-    if okr:
+    final_is_last_push = False
+    if okr and names[1] != names[4]:
+        # `activated.push(v); .. activated.last().unwrap()` evaluates to v itself: the final output is the value pushed last on every path
+        final_is_last_push = all((p_.val if p_.exit is None else p_.exit[1])[1][1] == (e5.pushes_to(p_, names[4]) or [None])[-1] for p_ in fpaths)
+        okr = final_is_last_push
+    if okr and not final_is_last_push:
         fin = comps[1]
         a_last = e5.is_call(fin, "unwrap", 1)
         okr = (isinstance(fin, tuple) and fin[0] == "idx" and isinstance(fin[2], tuple) and fin[2][0] == "bin" and fin[2][1] == "Sub"
